@@ -271,7 +271,6 @@ def main():
         n = mod.QUICK_N if tier == "quick" else mod.THOROUGH_N
         budget = args.budget or (getattr(mod, "QUICK_BUDGET", 60) if tier == "quick" else getattr(mod, "THOROUGH_BUDGET", 900))
         seeds = [args.seed] if tier == "quick" else [args.seed, args.seed + 1, args.seed + 2]
-        t0 = real()
         exhaustive_done = False
         if tier == "thorough" and hasattr(mod, "exhaustive"):
             for line in mod.exhaustive(params):
@@ -280,6 +279,7 @@ def main():
                     break
             else:
                 exhaustive_done = True
+        t0 = real()   # the budget is for the generated cases; the exhaustive part is not charged to it
         for sd in seeds:
             rng = random.Random(sd)
             for i in range(n // len(seeds)):
